@@ -54,6 +54,7 @@ NOT_APPLICABLE = {
 }
 
 PROPS["C18"] = {
+    "technique": 'symbolic execution of go/ssa; SMT (z3/cvc5, QF_BVFP) over full-width inputs - unbounded',
     "level": "proof",
     "explanation": "checkThreshold is executed symbolically from its SSA over total,free: 64-bit vectors and minSpaceRequired: IEEE double; "
                    "the refusal verdict is compared with an independent exact oracle (integer/rational arithmetic) on every path; z3 returns unsat for "
@@ -73,6 +74,7 @@ PROPS["C18"] = {
 RL = "internal/pkg/archiver/ratelimiter"
 _c13 = {"abstract_time": True, "solver": "z3-new,cvc5", "timeout_ms": 90000}
 PROPS["C13"] = {
+    "technique": 'symbolic execution of go/ssa from an arbitrary invariant state; SMT (z3 raced with cvc5) over IEEE doubles - inductive step lemmas',
     "level": "proof",
     "explanation": "inductive-step lemmas: each real tokenBucket method (refill, Wait, adjustOnFailure, onSuccess) is executed symbolically from an ARBITRARY "
                    "bucket state satisfying the stated invariant (all fields symbolic IEEE doubles / 64-bit ints, clock symbolic); z3/cvc5 answer unsat for the negation "
@@ -99,6 +101,7 @@ PROPS["C13"] = {
 
 MD = "pkg/models"
 PROPS["C11"] = {
+    "technique": 'symbolic execution of go/ssa on trees with symbolic shape/status/URL; assertion verdicts by SMT, branch feasibility by sliced finite-domain search',
     "level": "model_checking",
     "explanation": "the real pkg/models tree code (CheckConsistency, DedupeItems, markCompleted, CompleteAndCheck, GetMaxDepth, GetNodesAtLevel, AddChild, RemoveChild) "
                    "is executed symbolically on trees whose SHAPE (children counts), STATUSES (8 values per node) and URL classes are solver variables; the model's own "
@@ -119,6 +122,7 @@ PROPS["C11"] = {
 
 RX = "internal/pkg/reactor"
 PROPS["C12"] = {
+    "technique": 'bounded model checking of go/ssa under an explicit scheduler (sleep-set POR, preemption bound, race detector); data concrete',
     "level": "model_checking",
     "explanation": "the real reactor (Start, ReceiveInsert, ReceiveFeedback, MarkAsFinished, Freeze, Stop, run, GetStateTable) is executed from its SSA together with its own "
                    "goroutine; channel operations, select arm choice, sync.Map/Once/WaitGroup/context operations and every goroutine switch are decision variables of the executor, "
@@ -137,6 +141,7 @@ PROPS["C12"] = {
 
 PA = "internal/pkg/controler/pause"
 PROPS["C14"] = {
+    "technique": 'bounded model checking of go/ssa under an explicit scheduler (sleep-set POR, preemption bound, race detector); data concrete',
     "level": "model_checking",
     "explanation": "the real pause manager (Subscribe, Unsubscribe, Pause, Resume, IsPaused) and the real stage worker loops are executed from SSA with their goroutines; "
                    "every Pause/Resume call sequence within the bound and every interleaving within the preemption bound is explored; a caller or worker blocked forever shows up as a state with no enabled goroutine.",
@@ -154,6 +159,7 @@ PROPS["C14"] = {
 
 ST = "internal/pkg/stats"
 PROPS["C17"] = {
+    "technique": 'schedule exploration of go/ssa (sleep-set POR, race detector) + SMT for the symbolic step/sample sums and the wildcard matcher',
     "level": "model_checking",
     "explanation": "the real counter/rate/mean/rateBucket code and the public wrappers are executed from SSA on 2-3 concurrent goroutines with SYMBOLIC step/sample values; "
                    "every interleaving of the atomic/mutex operations (sleep-set reduced) is explored and at quiescence the solver proves total == sum of the symbolic steps, mean == sum/count; "
@@ -174,6 +180,7 @@ PROPS["C17"] = {
 
 AR = "internal/pkg/archiver"
 PROPS["C03"] = {
+    "technique": 'bounded model checking of go/ssa under an explicit scheduler over the configuration matrix; data concrete',
     "level": "model_checking",
     "explanation": "Zeno's side of graceful stop: the real archiver Start/Stop (with startWARCWriter, the discard hook chain, the bucket manager and the worker goroutines) and the real stage worker loops "
                    "are executed from SSA for every point of the configuration matrix (proxy/direct, rate limiter on/off, HTTP timeout, 1-2 workers) and every interleaving within the preemption bound; "
@@ -195,6 +202,7 @@ PROPS["C03"] = {
 
 EX = "internal/pkg/postprocessor/extractor"
 PROPS["C19"] = {
+    "technique": 'symbolic execution of go/ssa on symbolic documents (strings as byte vectors, symbolic sizes/flags); SMT verdicts',
     "level": "model_checking",
     "explanation": "the extractors' own link-construction code (hasFileExtension, findURLs/GetURLsFromJSON split, M3U8 playlist walk, s3Legacy, s3V2) is executed from SSA on documents whose shape is chosen "
                    "symbolically (JSON value trees, playlists with nil slots, bucket pages with symbolic object sizes/truncation) and compared with reference rules written from the statement; net/url is executed from its real SSA.",
@@ -213,6 +221,7 @@ PROPS["C19"] = {
 }
 
 PROPS["C10"] = {
+    "technique": 'symbolic execution of go/ssa on symbolic byte strings; every index/slice/assertion is a panic obligation decided by SMT',
     "level": "model_checking",
     "explanation": "Zeno's own string/shape handling of server-controlled input (Link header parser, attribute splitter, JSON-in-JSON sniffing, findURLs over arbitrary value shapes, file-extension rule, M3U8 walk with nil slots) "
                    "is executed from SSA on SYMBOLIC byte strings; every index, slice, type assertion and nil dereference on every path is a panic obligation, every loop carries an unwinding bound (a spin would exceed it).",
@@ -233,6 +242,7 @@ PROPS["C10"] = {
 
 HQ = "internal/pkg/source/hq"
 PROPS["C15"] = {
+    "technique": 'schedule exploration of go/ssa (sleep-set POR, race detector, fault sequences) + SMT for symbolic hop counts',
     "level": "model_checking",
     "explanation": "the real HQ producer chain (producer, producerReceiver, producerDispatcher, producerSender with its retry/back-off loop) runs from SSA with its goroutines against a crawl-HQ stub that fails the first k calls; "
                    "batch size, number of items, hop counts (symbolic), timer firings and every interleaving within the preemption bound are explored; at quiescence each outlink must sit in exactly one successful Add with value, via and hops intact. "
@@ -266,6 +276,7 @@ POSTPROC_MODELS.update({
     Z + "/pkg/models.URLToString": VM + "URLToString",
 })
 PROPS["C06"] = {
+    "technique": 'symbolic execution of go/ssa with symbolic counters/limits (SMT) over enumerated tree positions and document kinds',
     "level": "model_checking",
     "explanation": "one real post-processing step (postprocessItem with extractAssets/extractOutlinks tails, shouldExtract*, GetDepthWithoutRedirections, AddChild) from an archived item at an arbitrary tree position "
                    "(symbolic chain of redirect/asset edges up to depth 4), for symbolic redirect/hop counters and limits, every response class and every extractor outcome; the retry loop of archive() is covered by C02. "
@@ -294,6 +305,7 @@ URL_MODELS.update({
     Z + "/pkg/models.URLToString": VM + "URLToStringQ",
 })
 PROPS["C05"] = {
+    "technique": 'execution of go/ssa over an enumerated URL-shape x filter matrix with modelled ada; data concrete',
     "level": "model_checking",
     "explanation": "the real preprocess() (normalisation glue, include/exclude filters, child removal, de-duplication, local seencheck, request construction) is executed from SSA for a seed, an asset child and a redirect target "
                    "whose URL is drawn from a table of URL shapes (good, built-in excluded host, non-http scheme, localhost, 127.0.0.1, dotless host, exclude-string, quoted, fragment, relative) under all 16 include/exclude filter combinations; "
@@ -313,6 +325,7 @@ PROPS["C05"] = {
 STORE_MODELS = dict(DEFAULT_MODELS)
 STORE_MODELS.update({k: v for k, v in URL_MODELS.items() if "leveldb" in k})
 PROPS["C08"] = {
+    "technique": 'execution of go/ssa over enumerated store states / item kinds / HQ answers; data concrete',
     "level": "model_checking",
     "explanation": "the real local seencheck (SeencheckItem/isSeen/seen over the FNV-keyed store) and the real crawl-HQ seencheck are executed from SSA for every prior record state of the URLs (absent / seen as seed / seen as asset), "
                    "every item kind (seed, redirect target, asset), every HQ answer (any subset unseen, or an error); models.URL.String() runs its real code (net/url query parsing, encodeQuery, URL.String) with only IDNA modelled; "
@@ -328,6 +341,7 @@ PROPS["C08"] = {
     ],
 }
 PROPS["C09"] = {
+    "technique": 'execution of go/ssa with map iteration order as a decision variable; data concrete',
     "level": "model_checking",
     "explanation": "models.URL.String()/URLToString/encodeQuery and net/url's query parsing run from their real SSA; Go's unspecified map iteration order is a decision variable, so the check asks whether ANY iteration order makes two URL objects "
                    "with the same text disagree or makes the parameters change order; the accept conditions of NormalizeURL (scheme, localhost/127.0.0.1, dotless host, fragment removal, quote trimming) are exercised in C05's harnesses.",
@@ -354,6 +368,7 @@ ARCH_MODELS.update({
     Z + "/pkg/models.URLToString": VM + "URLToStringQ",
 })
 PROPS["C02"] = {
+    "technique": 'symbolic execution of go/ssa (SMT for status/list/header), scripted bodies and servers enumerated',
     "level": "model_checking",
     "explanation": "Zeno's side of the WARC guarantee: (1) the discard hook chain the archiver installs, executed on symbolic status / header / --warc-discard-status lists, rejects exactly what the policy names; "
                    "(2) the real ProcessBody/copyWithTimeout*/io.Copy* code, on scripted bodies around the 2 KB sniff window, reads every successfully processed body to EOF and closes it on all paths; "
@@ -382,6 +397,7 @@ PIPE_MODELS.update({
     Z + "/pkg/models.URLToString": VM + "URLToStringQ",
 })
 PROPS["C01"] = {
+    "technique": 'bounded model checking of go/ssa: the whole pipeline under an explicit scheduler over enumerated site shapes; data concrete',
     "level": "model_checking",
     "explanation": "the real pipeline - reactor, preprocessor, archiver, postprocessor and finisher, started through their Start functions and wired as controler.startPipeline wires them - carries one seed through a site whose shape is chosen "
                    "symbolically (root answers 200/301/404/always-503/one transport failure; up to 2 embedded assets drawn from: image, stylesheet with its own asset, a duplicate, an excluded host, a non-http scheme, a 404; an outlink), "
@@ -402,6 +418,7 @@ PROPS["C01"] = {
 
 C16_MODELS = dict(PIPE_MODELS)
 PROPS["C16"] = {
+    "technique": 'symbolic execution / schedule exploration of go/ssa (SMT for usage counts and statuses)',
     "level": "model_checking",
     "explanation": "the per-seed resource discipline, as step obligations so that 'N vs 4N seeds' follows by induction: every response body obtained by archive() is closed on every path (C02 harness); after postprocessItem the item holds no body and the body is closed; "
                    "closeBodies leaves no node of the tree holding a body (all depths, all statuses); the per-host limiter table never exceeds maxBuckets for any arrival order and usage counts (all map iteration orders); "
@@ -421,6 +438,7 @@ PROPS["C16"] = {
 }
 
 PROPS["C07"] = {
+    "technique": 'execution of go/ssa incl. goquery/cascadia on enumerated DOMs; data concrete',
     "level": "model_checking",
     "explanation": "the real HTMLAssets/HTMLOutlinks/extractBaseTag/resolveURL code and the real goquery/cascadia selector engine run from SSA on DOM trees built node by node (which elements and attributes are present is chosen symbolically); "
                    "expected assets/outlinks come from the attribute table of the statement; natively the same DOM is rendered to text and parsed by the real x/net/html parser.",
